@@ -7,6 +7,7 @@
        wrapped into a constant computation; non-deferred events are handed back unchanged. *)
 From Coq Require Import List ZArith NArith Bool.
 Import ListNotations.
+From PyccoloV Require model.RwFrag model.FragSem proofs.FragSemProofs model.FragOv proofs.FragOvProofs.
 From PyccoloV Require Import gen.Events gen.EmitRet gen.PyAst model.Val model.Tree model.Erase proofs.EraseSound.
 
 Theorem C08_make_ret : forall ev v,
@@ -47,4 +48,39 @@ Definition ex_binop_out : tree :=
 Example C08_nonvacuous :
   erase ex_binop_out = Some [T kBinOp [] [[c1 1]; [T kAdd [] []]; [c1 2]]] /\
   make_ret E_before_binop (RUser 41 false) = RConstThunk (RUser 41 false) /\ make_ret E_before_binop (RUser 9 true) = RUser 9 true.
+Proof. vm_compute. repeat split; reflexivity. Qed.
+
+(* OVERRIDES AS A THEOREM on the fragment (model/FragOv.v: the terms and the rewriter of FragSem.v, handlers that hand back values).
+     hv e n x : what the handler of the value event e does with the value x it is given at node n (None: nothing; Some y: y is used instead;
+                pyc.Null is Some VNone);
+     hd e n   : what the handler of the deferred event e (before_binop, before_compare, before_assign_rhs) hands back (None: nothing;
+                Some v: the computation is replaced by the constant v).
+   The reference `ref_omodule` is the source semantics in which the handlers of the SUBSCRIBED events act as the event table says: a value
+   event's handler replaces the value every later computation sees; an overridden before_binop / before_compare still evaluates the operands
+   that are arguments of the deferred call (both operands; the left operand and the first comparator) and nothing that sits inside the thunk
+   (the later comparators); an overridden before_assign_rhs evaluates nothing of the right-hand side.
+   For ALL primitive operations, handler tables, subscriptions, source modules and environments the instrumented module ends with the
+   exception and the bindings of that reference and delivers its stream.  K-ov ties evaluator and reference to real runs whose handlers
+   override by table. *)
+Theorem C08_frag_overrides : forall binop cmpop unop truth cval is_and hv hd (c : RwFrag.rcfg) body r sv,
+  forallb FragSemProofs.src_s body = true ->
+  FragSem.s_exc (FragOv.exec_ol binop cmpop unop truth cval is_and hv hd (FragSem.instr_module c body) r sv) =
+    FragSem.r_exc (FragOv.ref_omodule binop cmpop unop truth cval is_and hv hd c body r) /\
+  FragSem.s_env (FragOv.exec_ol binop cmpop unop truth cval is_and hv hd (FragSem.instr_module c body) r sv) =
+    FragSem.r_env (FragOv.ref_omodule binop cmpop unop truth cval is_and hv hd c body r) /\
+  FragSem.filter_log c (FragSem.s_log (FragOv.exec_ol binop cmpop unop truth cval is_and hv hd (FragSem.instr_module c body) r sv)) =
+    FragSem.filter_log c (FragSem.r_log (FragOv.ref_omodule binop cmpop unop truth cval is_and hv hd c body r)).
+Proof. exact FragOvProofs.ov_module. Qed.
+Print Assumptions C08_frag_overrides.
+
+(* non-vacuity: `a = 2 + 3` with before_binop and after_assign_rhs subscribed; the before_binop handler hands back 42: both operands are
+   still evaluated, a = 42, and after_assign_rhs sees 42 *)
+Example C08_frag_overrides_nonvacuous :
+  let body := [FragSem.SAssign 1 [100] (FragSem.XBin 4 (FragSem.XConst 5 (SInt 2%Z)) kAdd (FragSem.XConst 7 (SInt 3%Z)))] in
+  let c := {| RwFrag.sub := fun e => existsb (event_eqb e) [E_before_binop; E_after_int; E_after_assign_rhs] |} in
+  let hd := fun e (n : N) => if event_eqb e E_before_binop then Some (FragSem.VInt 42) else None in
+  let a := FragOv.exec_ol FragSem.Py.binop FragSem.Py.cmpop FragSem.Py.unop FragSem.Py.truth FragSem.Py.cval FragSem.Py.is_and (fun _ _ _ => None) hd
+             (FragSem.instr_module c body) (fun _ => None) FragSem.VNone in
+  forallb FragSemProofs.src_s body = true /\ FragSem.s_env a 100 = Some (FragSem.VInt 42) /\
+  FragSem.s_log a = [(E_before_binop, 4, None); (E_after_int, 5, Some (FragSem.VInt 2)); (E_after_int, 7, Some (FragSem.VInt 3)); (E_after_assign_rhs, 4, Some (FragSem.VInt 42))].
 Proof. vm_compute. repeat split; reflexivity. Qed.
